@@ -39,6 +39,8 @@ var c15Shapes = []mrepo.ConfigEntry{
 	{Key: "refgroup.g.name", Value: ""},
 	{Key: "refgroup.h.include", Value: "refs/stash"},
 	{Key: "refgroup.a.b.c.include", Value: "refs/remotes/o"}, // nested three deep: a -> a.b -> a.b.c
+	{Key: "refgroup.g.include", Value: "refs/heads\n"},       // a value ending in LF (under -z the LF is part of the value)
+	{Key: "refgroup.tags.name", Value: ""},                   // empty name for a built-in group
 }
 
 type nulEntry struct {
@@ -225,9 +227,34 @@ func c15Case(sh *explore.Shard, dir string, seq []int, scopes scopeAssignment) {
 		fmt.Fprintf(&sig, "%d", len(got))
 	}
 	// display names
+	plain, _ := refmodel.NewForest(nil)
 	for _, g := range rg.Groups() {
-		if mg, ok := forest.BySymbol[string(g.Symbol)]; ok && mg.Name != "" && g.Name != mg.Name {
+		mg, ok := forest.BySymbol[string(g.Symbol)]
+		if !ok {
+			continue
+		}
+		if mg.Name != "" && g.Name != mg.Name {
 			mk("groups", fmt.Sprintf("group %q has display name %q, configuration says %q", g.Symbol, g.Name, mg.Name))
+		}
+		if mg.Name == "" {
+			// the last name entry git reports is empty: whatever is displayed then, it
+			// is not a name that this last entry has overridden
+			overridden := map[string]bool{}
+			if pg, ok := plain.BySymbol[string(g.Symbol)]; ok && pg.Name != "" {
+				overridden[pg.Name] = true
+			}
+			explicit := false
+			for _, e := range model {
+				if e.Key == "refgroup."+string(g.Symbol)+".name" {
+					explicit = true
+					if e.Value != "" {
+						overridden[e.Value] = true
+					}
+				}
+			}
+			if explicit && overridden[g.Name] {
+				mk("groups", fmt.Sprintf("group %q has display name %q although the last name entry git reports for it is empty", g.Symbol, g.Name))
+			}
 		}
 	}
 	sh.C.Outcome(sig.String())
@@ -309,6 +336,6 @@ func c15Worker(sh *explore.Shard) {
 
 func init() {
 	Registry["C15"] = &Check{Level: "exploration", Worker: c15Worker, QuickBudget: 70 * time.Second, ThoroughBudget: 10 * time.Minute,
-		Rule:        "all configuration texts of <=2 (quick) / <=3 (thorough) entries over 19 entry shapes (refgroup include/exclude/includeRegexp/name for groups g, G, a.b, a.b.c, 'g.' and h; keys without a value, foreign and refgroup; empty, multi-line, '='-bearing and quoted values; look-alike sections refgroupx/xrefgroup/refgroup.include), every assignment of the entries to the local/global/system/command scopes for single entries and for pairs over the first 9 shapes (thorough: all pairs); real git's own `config --list -z` (same flags and environment as git-sizer) parsed NUL-first is the reference for Repository.GetConfig(prefix) on 5 prefixes and, one level up, for the groups the real RefGroupBuilder builds (Categorize on the reference universe, display names). non-trivial = texts with >=2 entries or a non-local scope",
+		Rule:        "all configuration texts of <=2 (quick) / <=3 (thorough) entries over 21 entry shapes (refgroup include/exclude/includeRegexp/name for groups g, G, a.b, a.b.c, 'g.' and h; keys without a value, foreign and refgroup; empty, multi-line, LF-terminated, '='-bearing and quoted values; empty display names overriding earlier ones; look-alike sections refgroupx/xrefgroup/refgroup.include), every assignment of the entries to the local/global/system/command scopes for single entries and for pairs over the first 9 shapes (thorough: all pairs); real git's own `config --list -z` (same flags and environment as git-sizer) parsed NUL-first is the reference for Repository.GetConfig(prefix) on 5 prefixes and, one level up, for the groups the real RefGroupBuilder builds (Categorize on the reference universe, display names). non-trivial = texts with >=2 entries or a non-local scope",
 		Assumptions: []string{"git 2.39.5 is the reference parser of configuration files", "how a key that has no value is itself presented is not constrained; only that it does not disturb other entries"}}
 }
